@@ -697,10 +697,9 @@ class DMSAngle(object):
         :return: HP Notation (DDD.MMSSSS)
         :rtype: float
         """
-        if self.positive:
-            return self.degree + (self.minute / 100) + (self.second / 10000)
-        else:
-            return -(self.degree + (self.minute / 100) + (self.second / 10000))
+        # through dec2hp, which rounds the seconds to HP resolution and carries 60
+        # seconds / 60 minutes (59.9999999999 seconds must not be written as x.xx6)
+        return dec2hp(self.dec())
 
     def hpa(self):
         """
@@ -899,11 +898,9 @@ class DDMAngle(object):
         :return: HP Notation (DDD.MMSSSS)
         :rtype: float
         """
-        minute_int, second = divmod(self.minute, 1)
-        if self.positive:
-            return self.degree + (minute_int / 100) + (second * 0.006)
-        else:
-            return -(self.degree + (minute_int / 100) + (second * 0.006))
+        # through dec2hp, which rounds the seconds to HP resolution and carries 60
+        # seconds / 60 minutes (59.99999999999 minutes must not be written as x.596)
+        return dec2hp(self.dec())
 
     def hpa(self):
         """
